@@ -75,6 +75,8 @@ class Ctx:
         self.base_terms = {}         # key -> z3 term of the base angle (atom/d)
         self.base_order = []
         self.qbases = {}
+        self.sincos = {}
+        self.atom_pairs = {}
         self.angle_alias = {}        # z3 var name -> z3 term it is congruent to mod 2pi
         self.pi = None
         self.feas_timeout_ms = feas_timeout_ms
@@ -733,6 +735,7 @@ def sym_sqrt(x):
     c = ctx()
     try:
         poly, _prims = _poly(x.term(), c, for_trig=False)
+        poly = _reduce_trig(poly, c)
         key = ('sqrt', tuple(sorted(poly.items())))
     except Exception:
         key = ('sqrt', x.term().get_id())
@@ -820,7 +823,7 @@ def sym_log(x):
 # angle algebra
 # --------------------------------------------------------------------------
 
-def _poly(t, c, for_trig=True):
+def _poly(t, c, for_trig=True, cap=400):
     """z3 real term -> polynomial normal form over primitive atoms:
     ({monomial: Fraction}, {atom id: term}); a monomial is a sorted tuple of atom
     ids (with repetition); () is the constant monomial."""
@@ -879,7 +882,7 @@ def _poly(t, c, for_trig=True):
                 out = {(): Fraction(1)}
                 for x in ch:
                     out = pmul(out, walk(x))
-                    if len(out) > 400:
+                    if len(out) > cap:
                         return prim(t)
                 return out
             if k == z3.Z3_OP_DIV and (z3.is_rational_value(ch[1]) or z3.is_int_value(ch[1])):
@@ -892,6 +895,40 @@ def _poly(t, c, for_trig=True):
         return prim(t)
 
     return walk(z3.simplify(t)), prims
+
+
+def _reduce_trig(poly, c):
+    """normal form modulo sin^2 + cos^2 = 1 for the registered sin/cos atom pairs:
+    every sin_i^2 is replaced by 1 - cos_i^2"""
+    pairs = getattr(c, 'atom_pairs', None)
+    if not pairs:
+        return poly
+    changed = True
+    guard = 0
+    while changed and guard < 64:
+        changed = False
+        guard += 1
+        out = {}
+        for mono, coef in poly.items():
+            hit = None
+            for sid, cid in pairs.items():
+                if mono.count(sid) >= 2:
+                    hit = (sid, cid)
+                    break
+            if hit is None:
+                out[mono] = out.get(mono, 0) + coef
+                continue
+            changed = True
+            sid, cid = hit
+            rest = list(mono)
+            rest.remove(sid)
+            rest.remove(sid)
+            m1 = tuple(sorted(rest))
+            m2 = tuple(sorted(rest + [cid, cid]))
+            out[m1] = out.get(m1, 0) + coef
+            out[m2] = out.get(m2, 0) - coef
+        poly = {m: v for m, v in out.items() if v != 0}
+    return poly
 
 
 def _mono_term(mono, prims):
@@ -932,6 +969,7 @@ def _base_trig(c, key, base_term):
         c.defs[str(sv)] = ('sin', base_term)
         c.defs[str(cv)] = ('cos', base_term)
         c.add_axiom(sv * sv + cv * cv == 1)
+        c.atom_pairs[sv.get_id()] = cv.get_id()
         s, co = SymR(sv), SymR(cv)
         _angle_facts(c, base_term, sv, cv)
         # injectivity instances against earlier bases
@@ -1036,6 +1074,8 @@ def trig(x):
     quarter %= 4
     for _ in range(quarter):
         s, co = co, -s
+    if s.c is None and co.c is None:
+        c.sincos[(s.term().get_id(), co.term().get_id())] = x
     return s, co
 
 
@@ -1055,6 +1095,14 @@ def sym_arctan2(y, x):
     hit = c.bases.get(key)
     if hit is not None:
         return hit
+    known = c.sincos.get((y.term().get_id(), x.term().get_id()))
+    if known is not None:
+        # arctan2(sin t, cos t) = t for t in (-pi, pi]
+        pi = c.get_pi().term()
+        _assume_defined(z3.And(known.term() > -pi, known.term() <= pi),
+                        "arctan2(sin t, cos t) = t: t in (-pi, pi]")
+        c.bases[key] = known
+        return known
     pi = c.get_pi().term()
     phi = c.fresh('atan2')
     c.defs[str(phi)] = ('atan2', y.term(), x.term())
